@@ -54,6 +54,8 @@ type Prop struct {
 
 var Props = map[string]*Prop{}
 
+var debugHook func(w *World)
+
 func register(p *Prop) { Props[p.ID] = p }
 
 type RunOpts struct {
@@ -131,6 +133,9 @@ func RunOne(t *testing.T, prop *Prop, tape *core.Tape, opts RunOpts) (res *RunRe
 			vs = append(vs, prop.Check(w, st, res)...)
 		}
 		w.probes(res)
+		if debugHook != nil {
+			debugHook(w)
+		}
 		res.Violations = append(res.Violations, vs...)
 		if opts.KeepTrace {
 			res.Trace = s.Trace
